@@ -194,7 +194,7 @@ func runC18(c *Ctx) {
 			}
 		}
 	}
-	R.Floor("C18.R2", "io.ReadFull calls filling the window", nFill, 2)
+	R.Floor("C18.R2", "io.ReadFull calls filling the window", nFill, 1)
 
 	// ---------- R3: package wire only reads the window
 	nLoads := 0
@@ -218,8 +218,12 @@ func runC18(c *Ctx) {
 		}
 	}
 	// ---------- R4: containers that retain handed-out data are allocated per message
-	for _, spec := range [][2]string{{"readParameters", "the parameter list handed to the portal and the statement function"}, {"readColumnTypes", "the result-format list kept by the portal"}} {
-		fn := c.P.Method("wire", "Session", spec[0])
+	pdec, fdec := c.bindDecoders()
+	for i, spec := range [][2]string{{"parameter decoder", "the parameter list handed to the portal and the statement function"}, {"result-format decoder", "the result-format list kept by the portal"}} {
+		fn := pdec
+		if i == 1 {
+			fn = fdec
+		}
 		if fn == nil {
 			R.Fail("C18.R4", spec[0]+":anchor", "-", "anchor resolves", "method not found")
 			continue
